@@ -20,7 +20,15 @@ CONTEXTS = {
     "list-item": "* item %s\n",
     "table-cell": "{|\n| %s\n|}",
     "bold": "'''%s'''",
+    # constructs broken by <nowiki/> are re-emitted as text; what is nested in them is finalised late
+    "broken-template": "{{<nowiki/>a|%s}}",
+    "broken-nested": "{{<nowiki/>a|{{<nowiki/>b|%s}}}}",
+    "broken-link-nested": "[[<nowiki/>a|{{<nowiki/>b|%s}}]]",
+    "broken-arg-nested": "{{{<nowiki/>a|{{<nowiki/>b|%s}}}}}",
+    "if-broken": "{{#if:x|{{<nowiki/>a|%s}}}}",
 }
+# contexts whose surroundings are taken from the expansion of the same context around a plain word
+BY_MARKER = ("broken-template", "broken-nested", "broken-link-nested", "broken-arg-nested", "if-broken")
 MARKUP = set("=<>*:!|[]{}\"'_")
 
 
@@ -161,13 +169,17 @@ def run(run):
         wc = "".join(with_c)
         # reference from the property text: each comment and the line break directly before it deleted
         cases_b.append((wc, re.sub(r"(?s)\n?<!--.*?-->", "", wc), adj))
-    texts = [t for _, _, t in cases_a] + [x for a, b, _ in cases_b for x in (a, b)]
+    texts = [t for _, _, t in cases_a] + [x for a, b, _ in cases_b for x in (a, b)] + [CONTEXTS[k] % "MARKERX" for k in BY_MARKER]
     chunks = [texts[i:i + 150] for i in range(0, len(texts), 150)]
     res = lib.run_impl("c15", [{"texts": ch} for ch in chunks], shards=lib.NCPU)
     outs = []
     for r, ch in zip(res, chunks):
         outs += r["outs"] if r.get("outcome") == "ok" else [{"expand": ["harness", r.get("outcome")], "tree": None, "calls": []}] * len(ch)
     coq_cases = []
+    marker_out = {k: o["expand"] for k, o in zip(BY_MARKER, outs[len(outs) - len(BY_MARKER):])}
+    for k, e in marker_out.items():
+        if not (isinstance(e, str) and e.count("MARKERX") == 1):
+            run.correspondence_break("context %s does not show its content once" % k, CONTEXTS[k], out=e)
     for (c, ctxn, text), o in zip(cases_a, outs[:len(cases_a)]):
         run.count(["nowiki", ctxn, c], any(ch in MARKUP for ch in c), "nowiki:" + ctxn)
         e = o["expand"]
@@ -180,6 +192,10 @@ def run(run):
             pre, post = "", ""
         elif ctxn == "template-arg2":
             pre, post = "q-", ""
+        elif ctxn in BY_MARKER:
+            if not (isinstance(marker_out[ctxn], str) and marker_out[ctxn].count("MARKERX") == 1):
+                continue
+            pre, post = marker_out[ctxn].split("MARKERX")
         if ctxn == "named-arg":
             inner_ok = lambda q: html.unescape(q) == c.strip() or html.unescape(q) == c
         else:
@@ -203,7 +219,8 @@ def run(run):
                 run.property_failure("c15:nowiki:parse-not-single-text", "parse(%r) gave %r" % (text, t), text)
         if ctxn == "top" and c != "" and isinstance(e, str):
             coq_cases.append("(%s, %s)" % (cstr(c), cstr(e)))
-    for (a, b, adj), oa, ob in zip(cases_b, outs[len(cases_a)::2], outs[len(cases_a) + 1::2]):
+    nb = len(outs) - len(BY_MARKER)
+    for (a, b, adj), oa, ob in zip(cases_b, outs[len(cases_a):nb:2], outs[len(cases_a) + 1:nb:2]):
         run.count(["comment", a], adj, "comments")
         if oa["expand"] != ob["expand"]:
             run.property_failure("c15:comment:expand-differs", "%r -> %r but without comments %r -> %r"
